@@ -10,11 +10,13 @@ import (
 	"crypto"
 	"crypto/rsa"
 	"crypto/tls"
+	"crypto/x509"
 
 	"github.com/beevik/etree"
 	"time"
 
 	dsig "github.com/russellhaering/goxmldsig"
+	dsigtypes "github.com/russellhaering/goxmldsig/types"
 )
 
 func vBool(name string) bool
@@ -159,3 +161,8 @@ func vGlobalWrites() int
 func vConfigSig(sp *SAMLServiceProvider) string
 
 func vDump(label string, ok bool, v interface{})
+
+func vX509Cert(name string) *x509.Certificate
+func vVerifyCertificate(ctx *dsig.ValidationContext, sig *dsigtypes.Signature) (*x509.Certificate, error)
+func vCertRaw(c *x509.Certificate) []byte
+func vStripWS(s string) string
